@@ -59,8 +59,8 @@ Proof.
       destruct (climb f p None r) as [[arg r']|]; [|reflexivity]. cbn [option_map shift_res fst snd].
       change (Some (RPre d (k + a) (shift_rtree a arg))) with (option_map (shift_rtree a) (Some (RPre d k arg))).
       apply IH.
-    + pose proof (IH INF None r) as E0. cbn [option_map] in E0. rewrite E0. clear E0.
-      destruct (climb f INF None r) as [[inner [|c r']]|]; try reflexivity. cbn [option_map shift_res fst snd map].
+    + pose proof (IH (blimit b) None r) as E0. cbn [option_map] in E0. rewrite E0. clear E0.
+      destruct (climb f (blimit b) None r) as [[inner [|c r']]|]; try reflexivity. cbn [option_map shift_res fst snd map].
       destruct c as [d0 k0|d0 k0|d0 k0|d0 k0|b0 k0|b0 k0]; cbn [shift_item]; try reflexivity.
       destruct (bkind_eqb b b0); [|reflexivity].
       change (Some (RGroup b (k + a) (shift_rtree a inner))) with (option_map (shift_rtree a) (Some (RGroup b k inner))).
@@ -151,6 +151,9 @@ Proof.
 Qed.
 
 (* ---- a successful climb consumes a well-formed item list ---- *)
+Definition round_top (D : list bkind) : bool := match D with BRound :: _ => true | _ => false end.
+Definition sep_okb (d : definition) (D : list bkind) : bool := negb (is_sep_def d && round_top D).
+
 Fixpoint wf_items (its : list item) (after : bool) (depth : list bkind) : bool :=
   match its with
   | [] => after && match depth with [] => true | _ => false end
@@ -159,7 +162,7 @@ Fixpoint wf_items (its : list item) (after : bool) (depth : list bkind) : bool :
     | IValue _ _ => negb after && wf_items r true depth
     | IPrefix _ _ => negb after && wf_items r false depth
     | IOpen b _ => negb after && wf_items r false (b :: depth)
-    | IBinary _ _ => after && wf_items r false depth
+    | IBinary d _ => after && sep_okb d depth && wf_items r false depth
     | ISuffix _ _ => after && wf_items r true depth
     | IClose b _ => after && match depth with b' :: d => bkind_eqb b' b && wf_items r true d | [] => false end
     end
@@ -167,31 +170,113 @@ Fixpoint wf_items (its : list item) (after : bool) (depth : list bkind) : bool :
 
 Definition is_some {A} (o : option A) : bool := match o with Some _ => true | None => false end.
 
-Lemma climb_wf : forall f q acc its t rest,
-  climb f q acc its = Some (t, rest) ->
-  forall D, wf_items rest true D = true -> wf_items its (is_some acc) D = true.
+(* prefix operators bind tighter than the separator *)
+Definition pre_small (it : item) : bool :=
+  match it with
+  | IPrefix d _ => match ref_rank d with Some p => N.leb p ROUND_LIMIT | None => true end
+  | _ => true
+  end.
+
+Lemma climb_rest_forall (P : item -> bool) : forall f q acc its t rest,
+  climb f q acc its = Some (t, rest) -> forallb P its = true -> forallb P rest = true.
 Proof.
-  induction f as [|f IH]; intros q acc its t rest H D Hr; [discriminate|].
-  destruct acc as [lhs|]; cbn [climb is_some] in *.
-  - destruct its as [|it r]; [injection H as <- <-; exact Hr|].
-    destruct it as [d k|d k|d k|d k|b k|b k]; try (injection H as <- <-; exact Hr).
-    + destruct (inside d q); [|injection H as <- <-; exact Hr].
-      cbn [wf_items andb]. exact (IH _ _ _ _ _ H D Hr).
-    + destruct (inside d q); [|injection H as <- <-; exact Hr].
+  induction f as [|f IH]; intros q acc its t rest H HP; [discriminate|].
+  destruct acc as [lhs|]; cbn [climb] in H.
+  - destruct its as [|it r]; [injection H as <- <-; exact HP|].
+    assert (HPr : forallb P r = true) by (cbn [forallb] in HP; apply andb_true_iff in HP; apply HP).
+    destruct it as [d k|d k|d k|d k|b k|b k]; try (injection H as <- <-; exact HP).
+    + destruct (inside d q); [|injection H as <- <-; exact HP]. exact (IH _ _ _ _ _ H HPr).
+    + destruct (inside d q); [|injection H as <- <-; exact HP].
       destruct (ref_rank d) as [p|]; [|discriminate].
       destruct (climb f p None r) as [[rhs r']|] eqn:E1; [|discriminate].
-      cbn [wf_items andb]. apply (IH _ _ _ _ _ E1 D). exact (IH _ _ _ _ _ H D Hr).
+      exact (IH _ _ _ _ _ H (IH _ _ _ _ _ E1 HPr)).
   - destruct its as [|it r]; [discriminate|].
+    assert (HPr : forallb P r = true) by (cbn [forallb] in HP; apply andb_true_iff in HP; apply HP).
     destruct it as [d k|d k|d k|d k|b k|b k]; try discriminate.
-    + cbn [wf_items negb andb]. exact (IH _ _ _ _ _ H D Hr).
+    + exact (IH _ _ _ _ _ H HPr).
     + destruct (ref_rank d) as [p|]; [|discriminate].
       destruct (climb f p None r) as [[arg r']|] eqn:E1; [|discriminate].
-      cbn [wf_items negb andb]. apply (IH _ _ _ _ _ E1 D). exact (IH _ _ _ _ _ H D Hr).
-    + destruct (climb f INF None r) as [[inner [|c r']]|] eqn:E1; try discriminate.
+      exact (IH _ _ _ _ _ H (IH _ _ _ _ _ E1 HPr)).
+    + destruct (climb f (blimit b) None r) as [[inner [|c r']]|] eqn:E1; try discriminate.
+      destruct c as [d0 k0|d0 k0|d0 k0|d0 k0|b0 k0|b0 k0]; try discriminate.
+      destruct (bkind_eqb b b0); [|discriminate H].
+      pose proof (IH _ _ _ _ _ E1 HPr) as HP1. cbn [forallb] in HP1. apply andb_true_iff in HP1.
+      exact (IH _ _ _ _ _ H (proj2 HP1)).
+Qed.
+
+Definition qok (q : N) (D : list bkind) : Prop := round_top D = true -> (q <= ROUND_LIMIT)%N.
+
+Lemma inside_le d q p : inside d q = true -> ref_rank d = Some p -> (p <= q)%N.
+Proof.
+  unfold inside. intros H E. rewrite E in H. apply orb_true_iff in H. destruct H as [H|H].
+  - apply N.ltb_lt in H. apply N.lt_le_incl. exact H.
+  - apply andb_true_iff in H. destruct H as [H _]. apply N.eqb_eq in H. subst q. apply N.le_refl.
+Qed.
+
+Lemma sep_not_inside d q D : qok q D -> inside d q = true -> sep_okb d D = true.
+Proof.
+  intros Hq Hi. unfold sep_okb. destruct (is_sep_def d) eqn:Es; [|reflexivity]. cbn [andb].
+  destruct (round_top D) eqn:Er; [|reflexivity]. exfalso. specialize (Hq Er).
+  assert (d = D_ExpressionSeparator) by (destruct d; try discriminate Es; reflexivity). subst d.
+  pose proof (inside_le _ _ 990%N Hi eq_refl) as L. unfold ROUND_LIMIT in Hq.
+  apply (N.le_trans _ _ _ L) in Hq. apply Hq. reflexivity.
+Qed.
+
+Lemma climb_wf : forall f q acc its t rest,
+  climb f q acc its = Some (t, rest) -> forallb pre_small its = true ->
+  forall D, qok q D -> wf_items rest true D = true -> wf_items its (is_some acc) D = true.
+Proof.
+  induction f as [|f IH]; intros q acc its t rest H HP D Hq Hr; [discriminate|].
+  destruct acc as [lhs|]; cbn [climb is_some] in *.
+  - destruct its as [|it r]; [injection H as <- <-; exact Hr|].
+    assert (HPr : forallb pre_small r = true) by (cbn [forallb] in HP; apply andb_true_iff in HP; apply HP).
+    destruct it as [d k|d k|d k|d k|b k|b k]; try (injection H as <- <-; exact Hr).
+    + destruct (inside d q); [|injection H as <- <-; exact Hr].
+      cbn [wf_items andb]. exact (IH _ _ _ _ _ H HPr D Hq Hr).
+    + destruct (inside d q) eqn:Ei; [|injection H as <- <-; exact Hr].
+      destruct (ref_rank d) as [p|] eqn:Ep; [|discriminate].
+      destruct (climb f p None r) as [[rhs r']|] eqn:E1; [|discriminate].
+      cbn [wf_items andb]. rewrite (sep_not_inside d q D Hq Ei). cbn [andb].
+      apply (IH _ _ _ _ _ E1 HPr D).
+      * intros Hrt. eapply N.le_trans; [exact (inside_le _ _ _ Ei Ep)|exact (Hq Hrt)].
+      * exact (IH _ _ _ _ _ H (climb_rest_forall _ _ _ _ _ _ _ E1 HPr) D Hq Hr).
+  - destruct its as [|it r]; [discriminate|].
+    assert (HPr : forallb pre_small r = true) by (cbn [forallb] in HP; apply andb_true_iff in HP; apply HP).
+    destruct it as [d k|d k|d k|d k|b k|b k]; try discriminate.
+    + cbn [wf_items negb andb]. exact (IH _ _ _ _ _ H HPr D Hq Hr).
+    + destruct (ref_rank d) as [p|] eqn:Ep; [|discriminate].
+      destruct (climb f p None r) as [[arg r']|] eqn:E1; [|discriminate].
+      cbn [wf_items negb andb]. apply (IH _ _ _ _ _ E1 HPr D).
+      * intros _. cbn [forallb pre_small] in HP. rewrite Ep in HP. apply andb_true_iff in HP. apply N.leb_le. apply HP.
+      * exact (IH _ _ _ _ _ H (climb_rest_forall _ _ _ _ _ _ _ E1 HPr) D Hq Hr).
+    + destruct (climb f (blimit b) None r) as [[inner [|c r']]|] eqn:E1; try discriminate.
       destruct c as [d0 k0|d0 k0|d0 k0|d0 k0|b0 k0|b0 k0]; try discriminate.
       destruct (bkind_eqb b b0) eqn:Eb; [|discriminate H].
-      cbn [wf_items negb andb]. apply (IH _ _ _ _ _ E1 (b :: D)).
-      cbn [wf_items andb]. rewrite Eb. cbn [andb]. exact (IH _ _ _ _ _ H D Hr).
+      cbn [wf_items negb andb]. apply (IH _ _ _ _ _ E1 HPr (b :: D)).
+      * intros Hrt. destruct b; [apply N.le_refl|discriminate Hrt].
+      * cbn [wf_items andb]. rewrite Eb. cbn [andb].
+        pose proof (climb_rest_forall _ _ _ _ _ _ _ E1 HPr) as HP1. cbn [forallb] in HP1. apply andb_true_iff in HP1.
+        exact (IH _ _ _ _ _ H (proj2 HP1) D Hq Hr).
+Qed.
+
+Lemma tok_pre_small t : match ref_kind t with
+                         | KPrefix => match ref_rank (ref_def t) with Some p => N.leb p ROUND_LIMIT | None => true end
+                         | _ => true end = true.
+Proof. destruct t; reflexivity. Qed.
+
+Lemma items_of_pre_small : forall l i prev sp its, items_of l i prev sp = Some its -> forallb pre_small its = true.
+Proof.
+  induction l as [|t r IH]; intros i prev sp its H; [injection H as <-; reflexivity|].
+  cbn [items_of] in H. pose proof (tok_pre_small t) as Ht.
+  assert (Hlead : forallb pre_small
+                    (match prev with
+                     | Some p => if sp && ends_value_k p && starts_value_k (ref_kind t) then [IBinary D_List None] else []
+                     | None => [] end) = true).
+  { destruct prev as [p|]; [|reflexivity]. destruct (sp && ends_value_k p && _); reflexivity. }
+  destruct (ref_kind t) eqn:Ek; try discriminate H; try (eapply IH; exact H);
+    (destruct (items_of r (S i) _ false) as [rest|] eqn:E; [|discriminate H]; injection H as <-;
+     cbn [starts_value_k] in Hlead; rewrite forallb_app, Hlead; cbn [forallb andb]; rewrite (IH _ _ _ _ E), andb_true_r;
+     first [reflexivity | exact Ht]).
 Qed.
 
 (* ---- a well-formed item list comes from a well-formed token list ---- *)
@@ -204,7 +289,8 @@ Fixpoint opexpr_loose (toks : list token_type) (after spaced : bool) (depth : li
     | KValue => (negb after || spaced) && opexpr_loose r true false depth
     | KPrefix => (negb after || spaced) && opexpr_loose r false false depth
     | KOpen b => (negb after || spaced) && opexpr_loose r false false (b :: depth)
-    | KBinary => after && opexpr_loose r false false depth
+    | KBinary => after && negb (sep_tok t && match depth with BRound :: _ => true | _ => false end)
+                 && opexpr_loose r false false depth
     | KSuffix => after && opexpr_loose r true false depth
     | KClose b => after && match depth with b' :: d => bkind_eqb b' b && opexpr_loose r true false d | [] => false end
     | KOther => false
@@ -238,8 +324,9 @@ Proof.
     + (* binary *)
       destruct (items_of r (S i) (Some KBinary) false) as [rest|] eqn:E; [|discriminate H]. injection H as <-.
       pose proof (lead_eq after prev sp KBinary Hp) as Hl; cbn [starts_value_k] in Hl; rewrite Hl in Hw; clear Hl.
-      rewrite andb_false_r in Hw. cbn [app wf_items] in Hw. apply andb_true_iff in Hw. destruct Hw as [-> Hw].
-      cbn [andb]. eapply IH; [exact E|reflexivity|exact Hw].
+      rewrite andb_false_r in Hw. cbn [app wf_items] in Hw. apply andb_true_iff in Hw. destruct Hw as [Hw0 Hw].
+      apply andb_true_iff in Hw0. destruct Hw0 as [-> Hsk]. unfold sep_okb, round_top in Hsk.
+      unfold sep_tok. rewrite Ek, Hsk. cbn [andb]. eapply IH; [exact E|reflexivity|exact Hw].
     + (* prefix *)
       destruct (items_of r (S i) (Some KPrefix) false) as [rest|] eqn:E; [|discriminate H]. injection H as <-.
       pose proof (lead_eq after prev sp KPrefix Hp) as Hl; cbn [starts_value_k] in Hl; rewrite Hl in Hw; clear Hl.
@@ -321,7 +408,7 @@ Proof.
   destruct (climb (4 * length its0 + 8) INF None its0) as [[T0 r0]|] eqn:Hcl0; [|discriminate Hcl].
   cbn [option_map shift_res fst snd] in Hcl. injection Hcl as <- Hr0.
   destruct r0; [|discriminate Hr0].
-  pose proof (climb_wf _ _ _ _ _ _ Hcl0 [] eq_refl) as Hwf. cbn [is_some] in Hwf.
+  pose proof (climb_wf _ _ _ _ _ _ Hcl0 (items_of_pre_small _ _ _ _ _ Hits0) [] (fun H => ltac:(discriminate H)) eq_refl) as Hwf. cbn [is_some] in Hwf.
   pose proof (items_tokens_wf mid 0 None false its0 false [] Hits0 eq_refl Hwf) as Hloose.
   assert (Hne : mid <> []).
   { intros E. rewrite E in Hits0. injection Hits0 as <-. discriminate Hwf. }
